@@ -194,6 +194,12 @@ Definition dep_decide (odep : bool) (bo : order) (lt gt s1 s2 : bool) : order :=
     end
   else if s1 || s2 then LESS else NONE.
 
+(* subclasscheck's branch for generic aliases as a decision over the answers of the calls it makes: osub = issubclass(o1, o2),
+   plain = (o2 is t2: the right-hand side is a bare class), n1 / n2 = numbers of type arguments, args_ok = all the
+   argument-wise tests.  [subck_body] below is this decision with the calls put back in (Proofs/LeafDep.v gen_branch_decides). *)
+Definition gen_sub_decide (osub plain : bool) (n1 n2 : nat) (args_ok : bool) : bool :=
+  if osub then (if plain then true else if Nat.eqb n1 n2 then args_ok else false) else false.
+
 (* ---------- option helpers (None = out of fuel) ---------- *)
 Definition obind {X Y} (o : option X) (f : X -> option Y) : option Y :=
   match o with None => None | Some x => f x end.
